@@ -92,6 +92,7 @@ class Profile:
     p_split: float = 0.12
     p_join: float = 0.5                  # per row while split
     p_early_term: float = 0.02
+    p_chord_display_mix: float = 0.0     # explored class (C01): chord with an accidental on one note and X / i / j / Z on another
     p_spine_end: float = 0.0             # per operator opportunity: a whole spine (not a sub-spine) ends with *- while the others go on
     p_combo_ops: float = 0.15
     p_consecutive_ops: float = 0.35
@@ -216,8 +217,10 @@ class _Gen:
             return Cell('rest', a, b, n)
         if r < p.p_null + p.p_rest + p.p_chord:
             ch = N.rand_chord(rng, hostile=p.hostile, allow_acc=p.allow_acc, allow_sigs=p.allow_sigs, sizes=p.chord_sizes,
-                              max_sigs=min(p.max_sigs, 12) if p.max_sigs > 5 else 3)
+                              max_sigs=min(p.max_sigs, 12) if p.max_sigs > 5 else 3, display_mix=p.p_chord_display_mix)
             self.doc.tags.add('chords')
+            if ch.display_mix:
+                self.doc.tags.add('chord_display_signifier_beside_accidental')
             a, b = ch.render(rng, p.hostile), ch.render(rng, p.hostile)
             return Cell('chord', self._q(a, ch), self._q(b, ch), ch)
         n = N.rand_note(rng, hostile=p.hostile, allow_grace=p.allow_grace, allow_acc=p.allow_acc,
